@@ -13,7 +13,9 @@ EXPLANATION = (
 DECIDED = ["R11a key-value store and indexes are co-updated (MUST, 4 primitives + 3 rollback arms)",
            "R11b index creation back-fills existing data",
            "R11c duplicate index is rejected before any effect (DOM)",
-           "R11d remove_index undo order"]
+           "R11d remove_index undo order",
+           "R11e replacement un-indexes the previous value and indexes the new one (argument provenance)",
+           "R11f back-fill decides node/edge by a graph lookup"]
 UNDECIDED = ["contents of the index multimap over histories (needs execution)"]
 
 DB = "agdb::db::DbImpl::"
